@@ -105,7 +105,7 @@ def gen_case(rng, tier):
     prog = []
     for _ in range(rng.randint(1, 15)):
         op = rng.choice(["next", "next", "fetchone", "fetchone", "fetchmany", "fetchmany", "fetchmany_none", "partitions", "all",
-                         "first", "one", "one_or_none", "scalar_family", "close", "freeze", "late_unique", "iter_k"])
+                         "first", "one", "one_or_none", "scalar_family", "close", "freeze", "late_unique", "iter_k", "late_yield_per"])
         prog.append([op, rng.choice([1, 2, 3, 5]), rng.randrange(3)])
     return {"rows": rows, "cfg": cfg, "shape": shape, "vshape": vshape, "prog": prog, "faults": []}
 
@@ -317,7 +317,7 @@ def run_case(case):
                 fired0 = len(plan.fired)
                 want_exc = None
                 try:
-                    if model.state == "closed" and op not in ("close", "late_unique"):
+                    if model.state == "closed" and op not in ("close", "late_unique", "late_yield_per"):
                         want_exc = exc.ResourceClosedError
                         if vs.get("merge"):
                             # a closed MergedResult reports exhaustion rather than ResourceClosedError; not asserted either way
@@ -486,6 +486,15 @@ def run_case(case):
                                     V("wrong_rows", "a frozen result replayed differently the second time", op=i)
                                 out = len(a1)
                                 bump("probe:freeze")
+                    elif op == "late_yield_per":
+                        # yield_per() on the object being read, after fetching has begun: size-less fetchmany() / partitions() that
+                        # follow deliver that many rows per batch
+                        if model.state == "open" and hasattr(obj, "yield_per"):
+                            obj = obj.yield_per(n)
+                            model.yield_per = n
+                            bump("probe:yield_per_after_fetching_began")
+                        out = "yield_per"
+                        want_exc = None
                     elif op == "late_unique":
                         if model.state == "open" and hasattr(obj, "unique"):
                             obj = obj.unique()
